@@ -148,14 +148,21 @@ def strip_comments(s):
     return "".join(out)
 
 
-def build_coq():
-    """Full .vo build of theories/ through coq_makefile (incremental)."""
+def build_coq(prop=None):
+    """Full .vo build through coq_makefile (incremental).  With [prop], only
+    the files props/<prop>.v depends on are built, so that a proof broken by a
+    source change in one area does not take the other properties down."""
     with Lock("coq"):
         t0 = time.time()
         rc, out, err = run(["coq_makefile", "-f", "_CoqProject", "-o", "Makefile"], cwd=COQ, timeout=120)
         if rc != 0:
             raise Broken("coq_makefile failed", err.decode(errors="replace"))
-        rc, out, err = run(["make", "-j%d" % NCPU], cwd=COQ, timeout=3000)
+        targets = []
+        if prop:
+            rc, out, err = run(["coqdep", "-Q", "theories", "Redo", "-Q", "props", "RedoProps", "-sort", os.path.join("props", prop + ".v")], cwd=COQ, timeout=60)
+            files = [f for f in out.decode().split() if f.startswith("theories/")]
+            targets = [re.sub(r"\.v$", ".vo", f) for f in files]
+        rc, out, err = run(["make", "-j%d" % NCPU] + targets, cwd=COQ, timeout=3000)
         if rc != 0:
             text = (out + err).decode(errors="replace")
             m = re.search(r'File "([^"]+)", line (\d+)', text)
@@ -242,7 +249,7 @@ def prove(prop):
     bad = audit_sources()
     if bad:
         raise Broken("forbidden construct in the Coq development", "\n".join(bad))
-    build_coq()
+    build_coq(prop)
     thms, assumptions = check_props(prop)
     for t, ax in assumptions.items():
         extra = [a for a in ax if a not in ALLOWED_AXIOMS]
